@@ -10,6 +10,7 @@ def check(run):
     run.rule('CAST.null', N.RULES['CAST.null'])
     for cfg in configs(run, extra_quick=('full',)):
         F = run.facts(cfg)
+        if cfg == 'base': __import__('common').pins(run, F, 'time_prims', 'time_fields')
         if cfg == 'full':
             n = T.check_polars_units(run, F)
             run.floor('TBL.polars-unit', 'polars datetime TIter impls', n, 3)
